@@ -21,8 +21,11 @@ pub struct Fault {
 
 /// The kinds of error a medium may report.  NotFound and AlreadyExists are kinds that code tends to MATCH on
 /// ("nothing to remove", "already there"): coming from the medium they are failures like any other.
-pub const EKINDS: [io::ErrorKind; 7] = [io::ErrorKind::Other, io::ErrorKind::NotFound, io::ErrorKind::PermissionDenied, io::ErrorKind::AlreadyExists,
-                                        io::ErrorKind::WriteZero, io::ErrorKind::UnexpectedEof, io::ErrorKind::InvalidData];
+pub const EKINDS: [io::ErrorKind; 10] = [io::ErrorKind::Other, io::ErrorKind::NotFound, io::ErrorKind::PermissionDenied, io::ErrorKind::AlreadyExists,
+                                         io::ErrorKind::WriteZero, io::ErrorKind::UnexpectedEof, io::ErrorKind::InvalidData,
+                                         // kinds that invite a retry; Interrupted (last) only for transient faults: std's own
+                                         // write_all / read_exact loops retry it for ever
+                                         io::ErrorKind::TimedOut, io::ErrorKind::WouldBlock, io::ErrorKind::Interrupted];
 
 #[derive(Default, Clone, Copy, Debug, PartialEq, Eq)]
 pub struct Counters {
